@@ -40,9 +40,18 @@ def main():
         out = os.path.join(wt, "OUT")
         meta = json.load(open(os.path.join(out, "meta.json")))
         os.makedirs(dst, exist_ok=True)
-        for f in os.listdir(out):
-            if os.path.isfile(os.path.join(out, f)):
-                shutil.copy(os.path.join(out, f), dst)
+        shutil.copytree(out, dst, dirs_exist_ok=True)
+        # also archive demonstration files the agent left only in the worktree
+        rc0, o0 = sh(["git", "status", "--porcelain", "--untracked-files=all"], cwd=wt)
+        for ln in o0.splitlines():
+            if ln.startswith("?? ") and not ln[3:].startswith("OUT/"):
+                rel = ln[3:]
+                tgt = os.path.join(dst, "worktree-files", rel)
+                os.makedirs(os.path.dirname(tgt), exist_ok=True)
+                try:
+                    shutil.copy(os.path.join(wt, rel), tgt)
+                except Exception:
+                    pass
     scratch = "/tmp/seedeval-%s-%d" % (name, os.getpid())
     ran = {}
     try:
